@@ -3,9 +3,20 @@ import Litestream.Gen.Lease
 /-! # C20 — At most one instance holds an unexpired replica lease
 
 Model: `Litestream.Model.Lease` (s3/leaser.go against an S3-like conditional store).
-All theorems quantify over every reachable state: any number of clients (client
-index = owner), any list of labels (= any interleaving at the granularity of
-single S3 requests, with clock ticks anywhere), any pre-seeded record.
+All theorems quantify over every reachable state: any number of instances
+(identified by their client index), ANY assignment of owner strings to instances
+(`State.label`, not necessarily injective: shared or empty `Owner`), any list of
+labels (= any interleaving at the granularity of single S3 requests, with clock
+ticks anywhere), any pre-seeded record. "Holder", "superseded", "from one owner
+to the next" are statements about instances, never about the owner string.
+
+Side condition (`FreshRun`): an instance never successfully writes a record that is
+byte-identical (generation, ExpiresAt, Owner) to a lease record another instance has
+in hand. The ETag is a content hash, so without it a *stale* lease object of one
+instance would be a valid token for another instance's later, identical write. It is
+a theorem when owner strings are distinct (`reachable_of_injective`); with shared
+owner strings it amounts to "nanosecond ExpiresAt values of different instances'
+writes never coincide".
 
 "Holds" (`Lease.holds`) is defined from the client's own belief: one of its
 acquire/renew calls succeeded, it has not successfully released since, and the
@@ -17,34 +28,42 @@ open Litestream.Lease
 
 /-- States reachable from an initial state (empty or pre-seeded store, all clients idle) by any
 list of labels. Disabled labels stutter, so every label list is a schedule. -/
-def Reachable (s : State) : Prop := ∃ store ls, s = run (initState store) ls
+def Reachable (s : State) : Prop :=
+  ∃ store label ls, FreshRun (initState store label) ls ∧ s = run (initState store label) ls
 
 theorem reachable_inv {s : State} (h : Reachable s) : Inv s := by
-  obtain ⟨store, ls, rfl⟩ := h
-  exact inv_run _ _ (inv_init store)
+  obtain ⟨store, label, ls, hf, rfl⟩ := h
+  exact inv_run _ _ (inv_init store label) hf
 
-theorem reachable_step {s : State} (h : Reachable s) (l : Label) : Reachable (step s l).1 := by
-  obtain ⟨store, ls, rfl⟩ := h
-  refine ⟨store, ls ++ [l], ?_⟩
-  generalize initState store = s0
-  induction ls generalizing s0 with
-  | nil => rfl
-  | cons x xs ih => exact ih _
+theorem reachable_step {s : State} (h : Reachable s) (l : Label) (hf : FreshStep s l) : Reachable (step s l).1 := by
+  obtain ⟨store, label, ls, hfr, rfl⟩ := h
+  refine ⟨store, label, ls ++ [l], ?_, ?_⟩
+  · generalize initState store label = s0 at hfr hf
+    induction ls generalizing s0 with
+    | nil => exact ⟨hf, trivial⟩
+    | cons x xs ih => exact ⟨hfr.1, ih _ hfr.2 hf⟩
+  · clear hf hfr
+    generalize initState store label = s0
+    induction ls generalizing s0 with
+    | nil => rfl
+    | cons x xs ih => exact ih _
+
+/-- With pairwise distinct owner strings every schedule is reachable: no side condition. -/
+theorem reachable_of_injective (store : Option Rec) (label : Nat → Nat) (hinj : ∀ a b, label a = label b → a = b)
+    (ls : List Label) : Reachable (run (initState store label) ls) :=
+  ⟨store, label, ls, freshRun_of_injective _ ls (inv_init store label) hinj, rfl⟩
 
 /-! ### Mutual exclusion -/
 
-/-- Never two clients both holding an unexpired lease. -/
+/-- Never two instances both holding an unexpired lease — whatever their owner strings. -/
 theorem lease_mutex (s : State) (h : Reachable s) (a b : Nat) (hab : a ≠ b) :
     ¬ (holds s a ∧ holds s b) := by
   intro ⟨⟨la, hla, haa, hea⟩, ⟨lb, hlb, hab', heb⟩⟩
   have inv := reachable_inv h
-  have hwa := inv.lease_wf a la hla
-  have hwb := inv.lease_wf b lb hlb
   rcases inv.lease_live a la hla haa with h1 | h1
   · rcases inv.lease_live b lb hlb hab' with h2 | h2
     · rw [h1] at h2
-      have : la.body = lb.body := Option.some.inj h2
-      exact hab (by rw [← hwa.2, ← hwb.2, this])
+      exact inv.lease_unique a b la lb hab hla hlb (Option.some.inj h2)
     · omega
   · omega
 
@@ -56,8 +75,8 @@ lease becomes the newest entry of the history. -/
 theorem second_acquire_after (s : State) (h : Reachable s) (b : Nat) (m : Missing) (req : Option ReqOut) (l : Lease)
     (hok : (step s (.acquirePut b m)).2 = .did req (some (.ok l))) :
     ((s.store = none ∧ (s.hist = [] ∨ ∃ rest, s.hist = .deleted :: rest)) ∨
-      (∃ r rest, s.store = some r ∧ s.hist = .wrote r :: rest ∧ r.exp < s.now)) ∧
-    (step s (.acquirePut b m)).1.hist = .wrote l.body :: s.hist ∧ l.body.owner = b := by
+      (∃ w r rest, s.store = some r ∧ s.hist = .wrote w r :: rest ∧ r.exp < s.now)) ∧
+    (step s (.acquirePut b m)).1.hist = .wrote (some b) l.body :: s.hist ∧ l.body.owner = s.label b := by
   have inv := reachable_inv h
   simp only [step, stepAcquirePut] at hok ⊢
   split at hok
@@ -78,7 +97,7 @@ theorem second_acquire_after (s : State) (h : Reachable s) (b : Nat) (m : Missin
         match hh : s.hist with
         | [] => exact Or.inl rfl
         | .deleted :: rest => exact Or.inr ⟨rest, rfl⟩
-        | .wrote r :: rest => rw [hh] at hs; cases hs
+        | .wrote w r :: rest => rw [hh] at hs; cases hs
       · right
         subst hc
         obtain ⟨r, h1, h2, _⟩ := hp.2
@@ -88,11 +107,11 @@ theorem second_acquire_after (s : State) (h : Reachable s) (b : Nat) (m : Missin
         match hh : s.hist with
         | [] => rw [hh] at hs; cases hs
         | .deleted :: rest => rw [hh] at hs; cases hs
-        | .wrote r :: rest =>
+        | .wrote w r :: rest =>
           rw [hh] at hs
           have : cur = r := Option.some.inj hs
           subst this
-          exact ⟨cur, rest, hst, by first | rfl | exact hh, h2⟩
+          exact ⟨w, cur, rest, hst, by first | rfl | exact hh, h2⟩
     · simp at hok
     · simp at hok
   · simp at hok
@@ -118,7 +137,7 @@ theorem taken_over_cannot (s : State) (h : Reachable s) (a : Nat) (l : Lease) (h
   obtain ⟨hl, hne⟩ := hs
   have hw := inv.lease_wf a l hl
   constructor
-  · have hfail : (s3Put s.store (writeLeaseCond (some l.etag)) ⟨l.body.gen, s.now + ttl, a⟩ m).1 ≠ .ok := by
+  · have hfail : (s3Put s.store (writeLeaseCond (some l.etag)) ⟨l.body.gen, s.now + ttl, s.label a⟩ m).1 ≠ .ok := by
       intro hok
       rcases (s3Put_ok_iff _ _ _ _).1 hok with ⟨hc, _⟩ | ⟨cur, hc, hst⟩
       · simp [writeLeaseCond] at hc
@@ -128,7 +147,7 @@ theorem taken_over_cannot (s : State) (h : Reachable s) (a : Nat) (l : Lease) (h
         exact hne hst
     simp only [step, stepRenew, hl]
     split
-    · cases hr : (s3Put s.store (writeLeaseCond (some l.etag)) ⟨l.body.gen, s.now + ttl, a⟩ m).1 with
+    · cases hr : (s3Put s.store (writeLeaseCond (some l.etag)) ⟨l.body.gen, s.now + ttl, s.label a⟩ m).1 with
       | ok => exact absurd hr hfail
       | precond =>
         simp only [true_and]
@@ -181,40 +200,46 @@ theorem taken_over_cannot (s : State) (h : Reachable s) (a : Nat) (l : Lease) (h
 /-! ### Generations -/
 
 /-- Along takeovers with no release in between, the generation never decreases and strictly
-increases whenever the owner changes (`genPartial`, as a Bool over the ghost history). -/
+increases whenever the writing *instance* changes (`genPartial`, as a Bool over the ghost history;
+the pre-seeded record of an unknown earlier incarnation only counts for "never decreases"). -/
 theorem generation_increases_partial (s : State) (h : Reachable s) : genPartial s.hist = true :=
   (reachable_inv h).hist_gen
 
-theorem segHead_map_append (mid : List Rec) (rest : List Ev) :
-    segHead (mid.map .wrote ++ rest) = mid ++ segHead rest := by
+def evOf (p : Option Nat × Rec) : Ev := .wrote p.1 p.2
+
+theorem segHead_map_append (mid : List (Option Nat × Rec)) (rest : List Ev) :
+    segHead (mid.map evOf ++ rest) = mid ++ segHead rest := by
   induction mid with
   | nil => rfl
-  | cons r mid ih => simp [segHead, ih]
+  | cons r mid ih => simp [segHead, evOf, ih]
 
 theorem genPartial_suffix (pre rest : List Ev) (h : genPartial (pre ++ rest) = true) : genPartial rest = true := by
   induction pre with
   | nil => exact h
   | cons e pre ih =>
     cases e with
-    | wrote r => simp only [List.cons_append, genPartial, Bool.and_eq_true] at h; exact ih h.2
+    | wrote w r => simp only [List.cons_append, genPartial, Bool.and_eq_true] at h; exact ih h.2
     | deleted => simp only [List.cons_append, genPartial] at h; exact ih h
 
-/-- What `genPartial` says, spelled out: two writes `r1` (earlier) and `r2` (later) of different
-owners with only writes (no release) between them have `r1.gen < r2.gen`. -/
+/-- What `genPartial` says, spelled out: a write `r1` by instance `w1` and a later write `r2` by a
+different instance `w2`, with only writes (no release) between them, have `r1.gen < r2.gen` —
+also when both instances use the same owner string. -/
 theorem generation_increases_partial_spec (s : State) (h : Reachable s)
-    (pre : List Ev) (r2 : Rec) (mid : List Rec) (r1 : Rec) (post : List Ev)
-    (hh : s.hist = pre ++ .wrote r2 :: (mid.map .wrote ++ .wrote r1 :: post))
-    (hown : r1.owner ≠ r2.owner) : r1.gen < r2.gen := by
+    (pre : List Ev) (w2 : Option Nat) (r2 : Rec) (mid : List (Option Nat × Rec)) (w1 : Nat) (r1 : Rec) (post : List Ev)
+    (hh : s.hist = pre ++ .wrote w2 r2 :: (mid.map evOf ++ .wrote (some w1) r1 :: post))
+    (hown : some w1 ≠ w2) : r1.gen < r2.gen := by
   have hg := generation_increases_partial s h
   rw [hh] at hg
   have := genPartial_suffix _ _ hg
   simp only [genPartial, Bool.and_eq_true] at this
   have hd := this.1
   rw [segHead_map_append] at hd
-  simp only [dominates, List.all_eq_true, Bool.and_eq_true, Bool.or_eq_true, decide_eq_true_eq, beq_iff_eq] at hd
-  have := hd r1 (by simp [segHead])
-  rcases this.2 with h1 | h1
+  simp only [dominates, List.all_eq_true, Bool.and_eq_true, Bool.or_eq_true, decide_eq_true_eq, beq_iff_eq,
+    Option.isNone_iff_eq_none] at hd
+  have := hd (some w1, r1) (by simp [segHead])
+  rcases this.2 with (h1 | h1) | h1
   · exact absurd h1 hown
+  · cases h1
   · exact h1
 
 /-- FULL-STRENGTH statement of the property text ("the lease generation strictly increases from
@@ -227,11 +252,12 @@ def f9Schedule : List Label :=
    .acquireGet 1, .acquireDecide 1 100, .acquirePut 1 .as404]
 
 theorem f9_history :
-    (run (initState none) f9Schedule).hist = [.wrote ⟨1, 100, 1⟩, .deleted, .wrote ⟨1, 100, 0⟩] := by decide
+    (run (initState none id) f9Schedule).hist =
+      [.wrote (some 1) ⟨1, 100, 1⟩, .deleted, .wrote (some 0) ⟨1, 100, 0⟩] := by decide
 
 theorem generation_increases_full_false : ¬ GenerationIncreasesFull := by
   intro h
-  have := h (run (initState none) f9Schedule) ⟨none, f9Schedule, rfl⟩
+  have := h _ (reachable_of_injective none id (fun _ _ h => h) f9Schedule)
   rw [f9_history] at this
   exact absurd this (by decide)
 
@@ -255,6 +281,10 @@ theorem gen_writeLease_cond (etag : Option ETag) :
 theorem gen_etag_flow :
     Gen.Lease.acquireReadVars = ["existing", "etag"] ∧ Gen.Lease.acquireWriteArgs = "newLease,etag" ∧
     Gen.Lease.renewWriteArgs = "newLease,lease.ETag" := by decide
+
+/-- AcquireLease hands a lease back in exactly one place: after its own conditional write
+succeeded (`newLease`, the record it just wrote) — never a record it merely read. -/
+theorem gen_acquire_success_only_own_write : Gen.Lease.acquireSuccessReturns = ["newLease,nil"] := by decide
 
 /-- ReleaseLease deletes conditionally on the held lease's ETag. -/
 theorem gen_release_cond : ("IfMatch", "aws.String(lease.ETag)") ∈ Gen.Lease.deleteInputFields := by decide
@@ -303,19 +333,28 @@ def exTakeover : List Label :=
   [.acquireGet 0, .acquireDecide 0 5, .acquirePut 0 .as404, .tick 7,
    .acquireGet 1, .acquireDecide 1 100, .acquirePut 1 .as404]
 
-example : holdsB (run (initState none) (exTakeover.take 3)) 0 = true := by decide
-example : holdsB (run (initState none) exTakeover) 1 = true ∧ holdsB (run (initState none) exTakeover) 0 = false := by decide
-example : (run (initState none) exTakeover).hist = [.wrote ⟨2, 107, 1⟩, .wrote ⟨1, 5, 0⟩] := by decide
-example : Superseded (run (initState none) exTakeover) 0 ⟨⟨1, 5, 0⟩, ⟨1, 5, 0⟩⟩ := by
+example : holdsB (run (initState none id) (exTakeover.take 3)) 0 = true := by decide
+example : holdsB (run (initState none id) exTakeover) 1 = true ∧ holdsB (run (initState none id) exTakeover) 0 = false := by decide
+example : (run (initState none id) exTakeover).hist = [.wrote (some 1) ⟨2, 107, 1⟩, .wrote (some 0) ⟨1, 5, 0⟩] := by decide
+example : Superseded (run (initState none id) exTakeover) 0 ⟨⟨1, 5, 0⟩, ⟨1, 5, 0⟩⟩ := by
   constructor <;> decide
-example : (step (run (initState none) exTakeover) (.renew 0 100 .as404)).2
+example : (step (run (initState none id) exTakeover) (.renew 0 100 .as404)).2
     = .did (some (.put (.ifMatch ⟨1, 5, 0⟩) ⟨1, 107, 0⟩ .precond)) (some .notHeld) := by decide
 /-- a live lease blocks a second acquire -/
-example : (step (run (initState none) ([.acquireGet 0, .acquireDecide 0 50, .acquirePut 0 .as404, .acquireGet 1])) (.acquireDecide 1 50)).2
+example : (step (run (initState none id) ([.acquireGet 0, .acquireDecide 0 50, .acquirePut 0 .as404, .acquireGet 1])) (.acquireDecide 1 50)).2
     = .did none (some (.leaseExists (some 0))) := by decide
 /-- the race: both read "absent", the second `If-None-Match: *` write loses -/
-example : (step (run (initState none) [.acquireGet 0, .acquireGet 1, .acquireDecide 0 50, .acquireDecide 1 50, .acquirePut 0 .as404]) (.acquirePut 1 .as404)).2
+example : (step (run (initState none id) [.acquireGet 0, .acquireGet 1, .acquireDecide 0 50, .acquireDecide 1 50, .acquirePut 0 .as404]) (.acquirePut 1 .as404)).2
     = .did (some (.put .ifNoneMatchStar ⟨1, 50, 1⟩ .precond)) none := by decide
+
+/-- two instances with the SAME owner string (7) race on an absent lease: the loser of the
+conditional write is refused and told who holds it; only instance 0 holds -/
+def exSameOwner : List Label :=
+  [.acquireGet 1, .acquireGet 0, .acquireDecide 0 50, .acquireDecide 1 50, .acquirePut 0 .as404, .acquirePut 1 .as404, .acquireReread 1]
+example : (step (run (initState none (fun _ => 7)) (exSameOwner.take 6)) (.acquireReread 1)).2
+    = .did (some (.get (some ⟨1, 50, 7⟩))) (some (.leaseExists (some 7))) := by decide
+example : holdsB (run (initState none (fun _ => 7)) exSameOwner) 0 = true ∧
+    holdsB (run (initState none (fun _ => 7)) exSameOwner) 1 = false := by decide
 
 theorem holds_iff_holdsB (s : State) (c : Nat) : holds s c ↔ holdsB s c = true := by
   unfold holds holdsB
